@@ -2,6 +2,7 @@ import ExprModel.Opt.Driver
 import ExprModel.Opt.ObsEq
 import ExprModel.Spec.Eval
 import ExprModel.Drv.Code
+import ExprModel.Drv.Spec
 /- driver stages `optimize` (model of optimizer.Optimize on a typed tree) and `optspec`
    (reference evaluation of the tree before and after the model's optimisation) -/
 namespace ExprModel.Drv
@@ -53,22 +54,6 @@ def logEq : List (String × List Val) → List (String × List Val) → Bool
     n == m && (Sexp.list (as.map Val.toSexp)).toStr == (Sexp.list (bs.map Val.toSexp)).toStr && logEq xs ys
   | _, _ => false
 
-/-- a range with literal bounds more than 2e6 apart (the reference evaluator would build it before it
-    checks the budget; the driver refuses to) -/
-partial def hugeRange : Node → Bool
-  | .binary _ op l r =>
-    (op == ".." && (match l, r with
-      | .int _ a, .int _ b => b - a > 2000000
-      | _, .int _ b => b > 2000000
-      | _, _ => false)) || hugeRange l || hugeRange r
-  | .unary _ _ x | .prop _ x _ _ | .closure _ x => hugeRange x
-  | .matches _ _ l r | .index _ l r | .pair _ l r => hugeRange l || hugeRange r
-  | .slice _ x f t => hugeRange x || (f.map hugeRange).getD false || (t.map hugeRange).getD false
-  | .method _ x _ args _ => hugeRange x || args.any hugeRange
-  | .func _ _ args _ | .builtin _ _ args | .array _ args | .map _ args => args.any hugeRange
-  | .cond _ a b d => hugeRange a || hugeRange b || hugeRange d
-  | _ => false
-
 def resSexp : R Val → Sexp
   | .ok v => .list [.atom "ok", v.toSexp]
   | .error e => .list [.atom "err", .atom e.name]
@@ -87,11 +72,7 @@ def handleOptspec : List Sexp → Sexp
       let g : Opt.Guard := fun p nd => match p, nd with
         | .fold, .array .. => foldArrays.asBool.getD true
         | _, _ => true
-      -- constant bounds become literals under the model's fold pass
-      let folded := match Opt.repeatPass fl.walkSliceNode (Opt.foldRule fl optWorld) Opt.foldWalks n with
-        | .ok n' => n'
-        | .error _ => n
-      if hugeRange folded then .list [.atom "skipped"] else
+      if refuseRange env n 200000 then .list [.atom "skipped"] else
       let ur := Spec.run c none n
       let u := ur.1
       match Opt.optimizeWith g fl fns optWorld n with
